@@ -19,7 +19,8 @@ RULE = ("Each case = one pair configuration from the C03 generator (media with r
         "lives in aiortc/aioice and no '*-decoder' thread created by the scenario is left. Distinct/non-trivial = distinct "
         "(configuration, mode, step) runs in which close hit a transport that was still checking/connecting, or a negotiation "
         "call was pending."
-        " Strata: trickle-style signalling whose candidates come late or never, the remote side gone before ICE connects (ICE 'failed' before close), a remote SCTP ABORT followed by one more createDataChannel().")
+        " Strata: trickle-style signalling whose candidates come late or never, the remote side gone before ICE connects (ICE 'failed' before close), a remote SCTP ABORT followed by one more createDataChannel()."
+        ' One case in five renegotiates on the established connection so that close() can fall into a description call in flight.')
 ASSUMPTIONS = [
     "real aioice over local UDP and real time; steps are counted by wrapping asyncio.events.Handle._run, so the step at which close() fires varies slightly between runs (network timing)",
     "'ended' for a received track is what a consumer can observe: readyState == 'ended' or recv() raising MediaStreamError within a bounded number of frames",
